@@ -4,13 +4,13 @@ check; only obligations tagged with the property id are reported by it."""
 PROPS = {
     'C04': {
         'verus': ['program_lines', 'program_state', 'interp_api'],
-        'kani': [],
+        'kani': ['line_number_parser'],
         'level': 'proof',
         'design_ref': 'DESIGN.md §5 U1, §6 C04',
     },
     'C01': {
         'verus': ['program_lines', 'program_state', 'interp_api', 'source_map'],
-        'kani': ['rng', 'arrays'],
+        'kani': ['rng', 'arrays', 'tokenizer_matchers'],
         'level': 'proof',
         'design_ref': 'DESIGN.md §6 C01',
     },
@@ -28,13 +28,13 @@ PROPS = {
     },
     'C05': {
         'verus': ['source_map'],
-        'kani': [],
+        'kani': ['tokenizer_matchers'],
         'level': 'proof',
         'design_ref': 'DESIGN.md §5 U5, §6 C05',
     },
     'C12': {
         'verus': ['line_cruncher'],
-        'kani': [],
+        'kani': ['tokenizer_matchers'],
         'level': 'proof',
         'design_ref': 'DESIGN.md §5 U4/K5, §6 C12',
     },
